@@ -36,17 +36,51 @@ def rule_registry(ctx, repo):
     ctx.check(ok, "C19.registry", "GroupBase.add", "duplicate idx raises; uid and _idx2model updated together after the test",
               "group registration accepts a duplicate idx or updates only one of the two maps", ga.W())
     gn = F.method(repo, "GroupBase", "get_next_idx", GROUP)
-    loops = [n for n in gn.g.nodes() if gn.g.data(n)["kind"] == "loop"]
-    brk = [n for n in gn.g.nodes() if gn.g.data(n)["kind"] == "stmt" and isinstance(gn.g.data(n)["ast"], ast.Break)]
-    t = [tn for tn in gn.g.nodes() if gn.g.data(tn)["kind"] == "test" and Q.match("idx not in self._idx2model", gn.g.data(tn)["ast"].test)]
-    ok = bool(loops and brk and t) and all(any(gn.g.guarded_by(b, x, "true") for x in t) for b in brk)
-    ok = ok and Q.has("count += 1", gn.fn) and Q.has("idx = model_name + '_' + str(count + 1)", gn.fn)
-    ctx.check(ok, "C19.registry", "GroupBase.get_next_idx", "generation loop leaves only on an idx not in the registry; counter advances",
-              "automatically generated idx can collide with an existing one", gn.W())
-    t2 = [tn for tn in gn.g.nodes() if gn.g.data(tn)["kind"] == "test" and Q.match("idx not in self._idx2model", gn.g.data(tn)["ast"].test)]
-    nn = [n for n in gn.g.nodes() if gn.g.data(n)["kind"] == "stmt" and Q.match("need_new = True", gn.g.data(n)["ast"])]
-    ctx.check(len(nn) >= 2, "C19.registry", "GroupBase.get_next_idx/explicit", "explicit idx kept only if free, otherwise a new one is generated",
-              "a used explicit idx is no longer replaced", gn.W())
+    # decided by evaluation (engine/tinyexec.py) over registries with and without collisions
+    from engine.tinyexec import TinyExec, Fake, LoopBound
+    from engine.ordertype import Unsupported
+
+    class _G(Fake):
+        class_name = "Grp"
+
+        def __init__(self, reg):
+            self._idx2model, self.n = dict(reg), len(reg)
+            self.uid = {k: i for i, k in enumerate(reg)}
+
+        def idx2model(self, idx, *a_, **k_):
+            return self._idx2model[idx]
+
+    class _M(Fake):
+        class_name = "Mdl"
+    nop = lambda *a_, **k_: None      # noqa: E731
+    stubs = {"logger.warning": nop, "logger.debug": nop, "logger.info": nop, "logger.error": nop}
+    auto_bad, expl_bad, und = [], [], None
+    regs = [{}, {"G_1": _M(), "G_2": _M()}, {"G_3": _M(), "G_4": _M()}, {"G_1": _M(), "G_3": _M(), "x": _M()}, {"Grp_2": _M(), 7: _M()}]
+    try:
+        for reg in regs:
+            for mname in ("G", None):
+                got = TinyExec(repo, "GroupBase", GROUP, stubs=stubs).call("get_next_idx", _G(reg), None, mname)
+                pre = (mname or "Grp") + "_"
+                if got in reg or not (isinstance(got, str) and got.startswith(pre) and got[len(pre):].isdigit()):
+                    auto_bad.append("registry %s, model_name=%r: generated idx %r" % (sorted(map(str, reg)), mname, got))
+            for prop in list(reg)[:2] + ["free", 99]:
+                got = TinyExec(repo, "GroupBase", GROUP, stubs=stubs).call("get_next_idx", _G(reg), prop, "G")
+                if prop in reg and (got in reg or got is None):
+                    expl_bad.append("registry %s: taken idx %r answered with %r" % (sorted(map(str, reg)), prop, got))
+                if prop not in reg and got != prop:
+                    expl_bad.append("registry %s: free idx %r replaced by %r" % (sorted(map(str, reg)), prop, got))
+    except LoopBound:
+        auto_bad.append("the generation loop does not terminate on a registry of %d devices" % len(reg))
+    except Unsupported as ex:
+        und = str(ex)
+    if und:
+        ctx.undecided("C19.registry", "GroupBase.get_next_idx", "evaluator: %s" % und, gn.W())
+        ctx.undecided("C19.registry", "GroupBase.get_next_idx/explicit", "evaluator: %s" % und, gn.W())
+    else:
+        ctx.check(not auto_bad, "C19.registry", "GroupBase.get_next_idx", "a generated idx is `<model>_<k>` and never one that is registered",
+                  "automatically generated idx can collide with an existing one: " + "; ".join(auto_bad[:2]), gn.W())
+        ctx.check(not expl_bad, "C19.registry", "GroupBase.get_next_idx/explicit", "explicit idx kept only if free, otherwise a new one is generated",
+                  "; ".join(expl_bad[:2]), gn.W())
     ip = F.method(repo, "IdxParam", "add", PARAM)
     t = [tn for tn in ip.g.nodes() if ip.g.data(tn)["kind"] == "test" and Q.match("value in self.v", ip.g.data(tn)["ast"].test)]
     rs = [n for n in ip.g.nodes() if ip.g.data(n)["kind"] == "stmt" and isinstance(ip.g.data(n)["ast"], ast.Raise)]
@@ -104,25 +138,97 @@ def rule_backref(ctx, repo):
 def rule_find_or_add(ctx, repo):
     f = F.method(repo, "DeviceFinder", "find_or_add", SERVICE)
     fn = f.fn
-    ok = Q.has("self.v = list(self.u.v)", fn)
-    lp = Q.loops(fn, "enumerate(self.link.v)", "($ii, $lt)")
-    ok = ok and bool(lp)
-    if ok:
-        body, e = lp[0]
-        i = src(e["ii"])
-        c1 = Q.has("$v = mdl.find_idx('idx', ($idx,), allow_none=True, default=None)[0]", body)
-        c2 = Q.has("$idx = mdl.find_idx(self.idx_name, ($lt,), allow_none=True, default=None)[0]", body, e)
-        c3 = Q.has("$idx = system.add($m, {self.idx_name: $lt})", body, e)
-        st = [n for n in ast.walk(body) if isinstance(n, ast.Assign) and Q.match("self.v[%s] = $x" % i, n)]
-        conts = [n for n in ast.walk(body) if isinstance(n, ast.Continue)]
-        ok = c1 and c2 and c3 and len(st) >= 2 and len(conts) >= 2
-    ctx.check(ok, "C19.find-or-add", "DeviceFinder.find_or_add", "check given idx -> find by link -> add linked to the same target; result stored "
-              "at the same position; each successful stage continues", "helper-device resolution stages changed", f.W())
-    t = f.tests(lambda c: c.strip() == "added")
-    ok = bool(t) and any(f.g.guarded_by(n, t[0], "true") for n in f.calls("mdl.list2array"))
-    ctx.check(ok, "C19.find-or-add", "DeviceFinder.find_or_add/re-array", "models re-arrayed after adding", "added helper devices are not converted to arrays", f.W())
-    rs = [n for n in walk_noscope(fn) if isinstance(n, ast.Raise)]
-    ctx.check(bool(rs), "C19.find-or-add", "DeviceFinder.find_or_add/unknown-model", "unknown model/group raises", "unknown helper model no longer rejected", f.W())
+    # decided by evaluation (engine/tinyexec.py): a stand-in system with one helper model in a group; the finder's input mixes a valid
+    # idx, missing ones, a wrong one and two references that share a target
+    from engine.tinyexec import TinyExec, Fake
+    from engine.ordertype import Unsupported
+
+    class _Obj(Fake):
+        pass
+
+    def world(auto_find, auto_add, model="H"):
+        log = []
+
+        class _H(Fake):
+            name = class_name = "H"
+
+            def __init__(self):
+                self.dev = [("h1", 1)]
+
+            def find_idx(self, keys, values, allow_none=False, default=None, **kw):
+                out = []
+                for val in values:
+                    hit = [i_ for (i_, l_) in self.dev if (i_ == val if keys == "idx" else l_ == val)]
+                    out.append(hit[0] if hit else default)
+                return out
+
+            def list2array(self):
+                log.append("list2array")
+
+            def refresh_inputs(self):
+                log.append("refresh_inputs")
+        h = _H()
+        system = _Obj()
+        system.models, system.groups = {"H": h}, {"HG": h}
+        system.__dict__["H"] = h
+        system.__dict__["HG"] = h
+
+        def _add(mname, pdict):
+            new = "new%d" % (len(h.dev))
+            h.dev.append((new, pdict.get("bus")))
+            log.append(("add", mname, dict(pdict)))
+            return new
+        system.add = _add
+        system.link_ext_param = lambda *a_, **k_: log.append("link_ext_param")
+        fnd = _Obj()
+        fnd.u, fnd.link, fnd.owner = _Obj(), _Obj(), _Obj()
+        fnd.u.v, fnd.u.name, fnd.u.owner = ["h1", None, None, "bogus", None], "hlp", _Obj()
+        fnd.u.owner.class_name = "Own"
+        fnd.link.v = [1, 2, 2, 3, 1]
+        fnd.owner.class_name, fnd.owner.idx = "Own", _Obj()
+        fnd.owner.idx.v = ["o1", "o2", "o3", "o4", "o5"]
+        fnd.model, fnd.default_model, fnd.idx_name, fnd.auto_find, fnd.auto_add = model, "H", "bus", auto_find, auto_add
+        fnd.v = None
+        return fnd, system, log
+    nop = lambda *a_, **k_: None      # noqa: E731
+    stubs = {"logger.warning": nop, "logger.debug": nop, "logger.info": nop, "logger.error": nop}
+    bad, bad_arr, bad_unknown, und = [], [], [], None
+    try:
+        for model in ("H", "HG"):
+            fnd, system, log = world(True, True, model)
+            TinyExec(repo, "DeviceFinder", SERVICE, stubs=stubs).call("find_or_add", fnd, system)
+            adds = [x for x in log if isinstance(x, tuple)]
+            if fnd.v != ["h1", "new1", "new1", "new2", "h1"] or adds != [("add", "H", {"bus": 2}), ("add", "H", {"bus": 3})]:
+                bad.append("find+add via %s: v=%s, added %s (expected ['h1', new(2), the same, new(3), 'h1'] and two additions)" % (model, fnd.v, adds))
+            tail = log[log.index(adds[-1]) + 1:] if adds else []
+            if adds and not ("list2array" in tail and "refresh_inputs" in tail and "link_ext_param" in tail):
+                bad_arr.append("after adding via %s only %s ran" % (model, tail))
+        fnd, system, log = world(True, False)
+        TinyExec(repo, "DeviceFinder", SERVICE, stubs=stubs).call("find_or_add", fnd, system)
+        if fnd.v != ["h1", None, None, "bogus", "h1"] and fnd.v != ["h1", None, None, None, "h1"] or any(isinstance(x, tuple) for x in log):
+            bad.append("auto_add off: v=%s, log=%s" % (fnd.v, log))
+        fnd, system, log = world(False, True)
+        TinyExec(repo, "DeviceFinder", SERVICE, stubs=stubs).call("find_or_add", fnd, system)
+        if fnd.v[0] != "h1" or len(set(fnd.v[1:])) != 4 or [x[2] for x in log if isinstance(x, tuple)] != [{"bus": 2}, {"bus": 2}, {"bus": 3}, {"bus": 1}]:
+            bad.append("auto_find off: v=%s, log=%s" % (fnd.v, [x for x in log if isinstance(x, tuple)]))
+        fnd, system, log = world(True, True, "Nope")
+        try:
+            TinyExec(repo, "DeviceFinder", SERVICE, stubs=stubs).call("find_or_add", fnd, system)
+            bad_unknown.append("unknown model name accepted")
+        except Unsupported:
+            raise
+        except (ValueError, KeyError):
+            pass
+    except Unsupported as ex:
+        und = str(ex)
+    for construct, txt, b_ in (("DeviceFinder.find_or_add", "check given idx -> find by link -> add linked to the same target; result stored at the "
+                                "same position; a device added earlier in the call is found, not duplicated", bad),
+                               ("DeviceFinder.find_or_add/re-array", "models re-arrayed, inputs refreshed and external parameters re-linked after adding", bad_arr),
+                               ("DeviceFinder.find_or_add/unknown-model", "unknown model/group raises", bad_unknown)):
+        if und:
+            ctx.undecided("C19.find-or-add", construct, "evaluator: %s" % und, f.W())
+        else:
+            ctx.check(not b_, "C19.find-or-add", construct, txt, "; ".join(b_[:2]), f.W())
 
 
 def rule_link_errors(ctx, repo):
